@@ -151,10 +151,10 @@ def replay_harness(ctx, casefile, toks):
 if __name__ == "__main__":
     ctx = Ctx("C03")
     ctx.assumptions = [
-        "theorems: sequential histories without gc steps and without the allow-list transfer inside SetPeer (decidable hypothesis covered_run); those, and the concurrent clause ('from many goroutines at once') is covered by the correspondence alone: 8 goroutines on one manager, totals at quiescence == what each goroutine holds, sampled limit checks, everything zero after the drain",
+        "theorems: every finite sequential history of the whole operation language (incl. gc and the allow-list transfer inside SetPeer) under the property's own quantifier (disciplined = config_wf, op_shape, callers_run); the concurrent clause ('from many goroutines at once') is covered by the correspondence alone: 8 goroutines on one manager, totals at quiescence == what each goroutine holds, sampled limit checks, everything zero after the drain",
         "callers release at most what they reserved directly on that scope, priorities 0..255, outstanding memory in total < 2^63 (callers_run; with a MaxInt64 memory limit the code skips the check and int64 would wrap: DESIGN 9 item 13)",
         "limits are non-negative (config_wf); SetLimit / sticky scopes are outside the quantifier and not modelled; metrics, tracing and the connection *rate* limiter are off",
-        "IP addresses and prefixes are integers with shift-compare containment (netip/net.IPNet.Contains, manet.ToIP modelled, exercised by the correspondence with real multiaddrs incl. IPv6); IPv4-mapped IPv6 addresses are not generated",
+        "IP addresses and prefixes are integers with shift-compare containment (netip/net.IPNet.Contains, manet.ToIP modelled, exercised by the correspondence with real multiaddrs incl. IPv6 and IPv4-mapped IPv6: the conn limiter keys a mapped address as IPv6 in addConn and rmConn, the allow-list unmaps it)",
         "the owner recursion of span scopes is unrolled to the stored owner chain; each method is one critical section (per-scope mutexes not modelled)",
     ]
     standard_flow(ctx, dict(
@@ -163,9 +163,9 @@ if __name__ == "__main__":
         spec_module="c03.Spec",
         harness=harness, replay_harness=replay_harness, warm=warm,
         nontrivial=nontrivial,
-        rule="seeded histories of 5-60 operations (OpenConnection in/out fd/no-fd with IPv4/IPv6/no-IP/allow-listed endpoints, SetPeer, OpenStream, "
+        rule="seeded histories of 5-60 operations (OpenConnection in/out fd/no-fd with IPv4/IPv6/IPv4-mapped-IPv6/no-IP/allow-listed endpoints, plain and mapped forms of one host mixed at the caps, SetPeer, OpenStream, "
              "SetProtocol, SetService, ReserveMemory(size, prio) on connections/streams/nested spans/View scopes, ReleaseMemory, BeginSpan, Done "
-             "(repeated, on closed owners), gc) against the REAL manager with limit tables drawn per scope kind from {0,1,2,3,small,MaxInt(64)} "
+             "(repeated, on closed owners; nested spans closed outer-first while the inner one holds memory), gc) against the REAL manager with limit tables drawn per scope kind from {0,1,2,3,small,MaxInt(64)} "
              "(1-3 tight kinds per case so the refusing edge moves through every position), per-subnet and per-prefix connection caps, allow-lists; "
              "plus directed corpus histories. After EVERY operation the error class and Stat()/refcount/done of every scope (system, transient, "
              "allow-listed pair, every service/protocol/peer scope and per-peer sub-scope, every handle) are compared with the Coq model "
